@@ -5,8 +5,15 @@
 EXTENDS Ingest, SequencesExt
 
 (* ---------------- tables (English language data) ---------------- *)
-T_PfxNs == ("Template:" :> 10) @@ ("Module:" :> 828) @@ ("Wiktionary:" :> 4) @@ ("MediaWiki:" :> 8)
 T_CanonPfx == ("10" :> "Template:") @@ ("828" :> "Module:") @@ ("4" :> "Wiktionary:") @@ ("8" :> "MediaWiki:")
+              @@ ("100" :> "Appendix:")
+\* other spellings of the prefixes (aliases of the language data, lower case)
+T_AliasPfx == ("10" :> "T:") @@ ("828" :> "MOD:") @@ ("4" :> "WT:") @@ ("100" :> "AP:")
+T_LowerPfx == ("10" :> "template:") @@ ("828" :> "module:") @@ ("4" :> "wiktionary:") @@ ("100" :> "appendix:")
+T_PfxNs == ("Template:" :> 10) @@ ("Module:" :> 828) @@ ("Wiktionary:" :> 4) @@ ("MediaWiki:" :> 8)
+           @@ ("Appendix:" :> 100)
+           @@ ("T:" :> 10) @@ ("MOD:" :> 828) @@ ("WT:" :> 4) @@ ("AP:" :> 100)
+           @@ ("template:" :> 10) @@ ("module:" :> 828) @@ ("wiktionary:" :> 4) @@ ("appendix:" :> 100)
 T_UpperOf == ("z" :> "Z") @@ ("Z" :> "Z")
 T_Defaults == << [title |-> <<"Template:", "!">>, body |-> "d1"],
                  [title |-> <<"Template:", "=">>, body |-> "d2"],
@@ -15,6 +22,7 @@ T_Defaults == << [title |-> <<"Template:", "!">>, body |-> "d1"],
 T_OkModels == {"wikitext", "Scribunto", "json"}
 DevIdeal == {}
 DevMain == {"MainPrefixStrippedOnAdd"}
+DevRed == {"RedirectTreatedAsTitle"}
 NoArgs == {}
 
 CONSTANTS MaxLen, Pool, Sels, Parts, Part
@@ -94,12 +102,63 @@ PoolBodies ==
 PoolDefaults ==
   { MkPage(10, tk, "wikitext", r, "b2") : tk \in {"bang", "eq", "lb", "rb"}, r \in {"none", "plain"} }
 
+(* ---------------- redirect targets x source namespaces ---------------- *)
+\* a target = (form, namespace it points into, title kind); forms: "canon" as a MediaWiki
+\* export writes it (no prefix for the main namespace, canonical prefix otherwise),
+\* "sp" with a space, and the spellings an export never uses: alias prefix, lower-case
+\* prefix, leading colon, fragment, underscore
+TargetFor(form, tns, tk) ==
+  CASE form = "canon" -> TitleFor(tns, tk)
+    [] form = "sp" -> TitleFor(tns, tk) \o <<"SP", "x">>
+    [] form = "alias" -> <<T_AliasPfx[ToString(tns)]>> \o BaseOf(tk)
+    [] form = "lc" -> <<T_LowerPfx[ToString(tns)]>> \o BaseOf(tk)
+    [] form = "colon" -> <<":">> \o TitleFor(tns, tk)
+    [] form = "frag" -> TitleFor(tns, tk) \o <<"#", "Sec", "SP", "1">>
+    [] form = "us" -> TitleFor(tns, tk) \o <<"US", "x">>
+MkRed(src, tgt) ==
+  DPage(TitleFor(src[1], src[2]), src[1], src[3], TargetFor(tgt[1], tgt[2], tgt[3]), "b1", "b1")
+\* a namespace with a prefix other than ns
+OtherNs(ns) == IF ns = 10 THEN 828 ELSE 10
+OwnOr(ns) == IF ns \in {0, 8} THEN 10 ELSE ns
+\* the targets tried from a page <<ns, title kind, model>>
+TargetsOf(src, wide) ==
+  LET ns == src[1] IN
+  { <<"canon", ns, "sub">>,            \* same namespace
+    <<"canon", ns, src[2]>>,           \* the page itself
+    <<"canon", 0, "plain">>,           \* main namespace (from ns # 0: the bare name of the page)
+    <<"canon", 0, "lower">>,
+    <<"canon", 0, "colon">>,           \* main-namespace title with colons
+    <<"canon", 0, "main">>,
+    <<"canon", OtherNs(ns), "plain">>, \* another namespace's prefix
+    <<"sp", 0, "plain">>,
+    <<"alias", OwnOr(ns), "plain">>, <<"lc", OwnOr(ns), "lower">>,
+    <<"colon", 0, "plain">>, <<"colon", OtherNs(ns), "plain">>,
+    <<"frag", 0, "lower">>, <<"frag", OwnOr(ns), "plain">>,
+    <<"us", 0, "plain">> }
+  \cup (IF wide THEN { <<"canon", 0, "uni">>, <<"canon", 0, "pfxlike">>, <<"canon", ns, "lower">>,
+                       <<"canon", 100, "lower">>, <<"alias", OtherNs(ns), "lower">>, <<"lc", OtherNs(ns), "plain">>,
+                       <<"colon", OwnOr(ns), "sub">>, <<"frag", OtherNs(ns), "sub">>, <<"us", OwnOr(ns), "plain">>,
+                       <<"sp", OwnOr(ns), "lower">> }
+        ELSE {})
+RedSourcesQ == { <<0, "plain", "wikitext">>, <<10, "plain", "wikitext">>, <<828, "plain", "Scribunto">>,
+                 <<4, "lower", "wikitext">>, <<100, "plain", "wikitext">> }
+RedSourcesT == RedSourcesQ \cup { <<0, "lower", "wikitext">>, <<10, "sub", "wikitext">>, <<10, "lower", "wikitext">>,
+                                  <<8, "plain", "json">>, <<100, "sub", "wikitext">> }
+\* pages the targets may or may not find in the dump (targets of chains are the sources)
+RedTargetPages ==
+  { MkPage(0, "plain", "wikitext", "none", "b1"), MkPage(0, "lower", "wikitext", "none", "b2"),
+    MkPage(10, "plain", "wikitext", "none", "t1"), MkPage(828, "plain", "Scribunto", "none", "b3") }
+RedPages(srcs, wide) == UNION { {MkRed(s, t) : t \in TargetsOf(s, wide)} : s \in srcs }
+PoolRed == RedPages(RedSourcesQ, FALSE) \cup RedTargetPages
+PoolRedT == RedPages(RedSourcesT, TRUE) \cup RedTargetPages
 PoolQ == PoolCore
 PoolT == PoolCore \cup PoolTitles \cup PoolModels \cup PoolBodies \cup PoolDefaults
 PoolWide == PoolT
 
 SelsQ == { {0, 10, 828}, {0, 4, 8, 10, 828} }
 SelsT == { {0, 10, 828}, {0, 4, 8, 10, 828}, {0}, {10, 828} }
+SelsRed == { {0, 4, 8, 10, 100, 828} }
+SelsRedT == { {0, 4, 8, 10, 100, 828}, {0, 10, 828} }
 
 (* ---------------- exhaustive exploration ---------------- *)
 PoolSeq == SetToSeq(Pool)
@@ -117,4 +176,8 @@ Terminates == <>IDone
 DemoDump == << MkPage(0, "plain", "wikitext", "none", "b1"), MkPage(0, "main", "wikitext", "none", "b3") >>
 DemoInit == IInit(DemoDump, {0, 10, 828})
 DemoSpec == DemoInit /\ [][INext]_ivars
+\* Demo (vacuity guard of RedirectsVerbatim): a template page pointing to the main-namespace page "Zed"
+DemoRedDump == << MkRed(<<10, "plain", "wikitext">>, <<"canon", 0, "plain">>) >>
+DemoRedInit == IInit(DemoRedDump, {0, 10, 828})
+DemoRedSpec == DemoRedInit /\ [][INext]_ivars
 =============================================================================
